@@ -689,8 +689,11 @@ enum QOp {
     Close,
     Add,
     SaveExt,
+    /// update / remove of ANOTHER document: admitted next to A, several backend calls of its own
+    UpdateOther,
+    RemoveOther,
 }
-const QOPS: [QOp; 7] = [QOp::Flush, QOp::CompactBtree, QOp::CompactBm25, QOp::Reconcile, QOp::Close, QOp::Add, QOp::SaveExt];
+const QOPS: [QOp; 9] = [QOp::Flush, QOp::CompactBtree, QOp::CompactBm25, QOp::Reconcile, QOp::Close, QOp::Add, QOp::SaveExt, QOp::UpdateOther, QOp::RemoveOther];
 
 /// A = update / remove / add in flight, dropped after k polls; B = another call issued while A is
 /// in flight. When the drop poisons the handle and B had not reached the backend yet (it was
@@ -707,6 +710,7 @@ fn queued_poison_case(case: u64, rng: &mut Rng, st: &mut Stats) {
             let Some((store, d)) = populate(&mut r, st, 10, true).await else { return };
             let c = d.coll.clone();
             let target = d.model.docs.keys().next().copied().unwrap_or(1);
+            let other_id = d.model.docs.keys().nth(1).copied().unwrap_or(target);
             let new_doc = fresh_doc(&mut r, "qa");
             let other_doc = fresh_doc(&mut r, "qb");
             let mut patch = Patch::new();
@@ -752,12 +756,24 @@ fn queued_poison_case(case: u64, rng: &mut Rng, st: &mut Stats) {
                     QOp::Close => e(c3.close().await),
                     QOp::Add => e(c3.add_from(&od).await.map(|_| ())),
                     QOp::SaveExt => e(c3.save_extension("kq".into(), Fv::U64(5)).await),
+                    QOp::UpdateOther => {
+                        let mut p = Patch::new();
+                        p.insert("age".into(), Fv::U64(55));
+                        p.insert("body".into(), Fv::Text("kernel lemon".into()));
+                        e(c3.update(other_id, p).await.map(|_| ()))
+                    }
+                    QOp::RemoveOther => e(c3.remove(other_id).await.map(|_| ())),
                 }
             });
             let mut b_done = false;
             for _ in 0..3 {
                 if ex.poll(tb) {
                     b_done = true;
+                    break;
+                }
+                if store.log_len() != events_before_b {
+                    // B runs concurrently with A and is now parked in the middle of its own
+                    // backend calls: keep it there (in flight) for the reopen race below
                     break;
                 }
             }
@@ -818,6 +834,41 @@ fn queued_poison_case(case: u64, rng: &mut Rng, st: &mut Stats) {
             ex.cancel(ta);
             let state_after_drop = c.state();
             let mark_b = store.mark();
+            // B is still IN FLIGHT on the now poisoned handle (it had reached the backend and is
+            // parked there): the application reopens the collection through the database while B
+            // has not finished. The reopen must not hand out a fresh handle under which the old
+            // handle's in-flight call still writes: it either waits for B (drain) or B writes
+            // nothing afterwards.
+            let mut reopen_raced: Option<(bool, Vec<String>)> = None;
+            if state_after_drop == CollectionState::Poisoned && b_reached_backend && !b_done {
+                let db2 = d.db.clone();
+                let t3 = ex.spawn(async move { open_coll(&db2, IndexSet::ALL).await.map(|_| ()).map_err(|e| format!("{e:?}")) });
+                let mut t3_done = false;
+                for _ in 0..600 {
+                    if ex.poll(t3) {
+                        t3_done = true;
+                        break;
+                    }
+                }
+                let mark_after_reopen = store.mark();
+                store.set_gate(false);
+                store.set_gate_after(false);
+                for _ in 0..4000 {
+                    if ex.poll(tb) {
+                        b_done = true;
+                        break;
+                    }
+                }
+                let wrote_after = if t3_done { effective_under_prefix(&store, mark_after_reopen) } else { vec![] };
+                if !t3_done {
+                    for _ in 0..4000 {
+                        if ex.poll(t3) {
+                            break;
+                        }
+                    }
+                }
+                reopen_raced = Some((t3_done, wrote_after));
+            }
             store.set_gate(false);
             store.set_gate_after(false);
             if !b_done {
@@ -839,6 +890,14 @@ fn queued_poison_case(case: u64, rng: &mut Rng, st: &mut Stats) {
             if !b_done {
                 st.violation(format!("C06/queued_poison/{qop:?}/queued_call_never_returns"), ctx(json!(null)));
                 return;
+            }
+            if let Some((reopened_before_b_finished, wrote_after)) = &reopen_raced {
+                st.count("reopen_while_a_call_of_the_poisoned_handle_is_in_flight");
+                st.count(if *reopened_before_b_finished { "reopen_returned_while_old_call_still_in_flight" } else { "reopen_waited_for_the_in_flight_call" });
+                if !wrote_after.is_empty() {
+                    st.violation(format!("C06/queued_poison/{qop:?}/in_flight_call_of_poisoned_handle_wrote_after_the_collection_was_reopened"), ctx(json!(wrote_after)));
+                    return;
+                }
             }
             if state_after_drop == CollectionState::Poisoned && !b_reached_backend {
                 st.count("queued_behind_poisoning_drop_judged");
@@ -900,6 +959,7 @@ fn main() {
     }
     run.floor("queued_behind_poisoning_drop_judged", 50);
     run.floor("queued_behind_readonly_judged", 30);
+    run.floor("reopen_while_a_call_of_the_poisoned_handle_is_in_flight", 10);
     for q in [QOp::Flush, QOp::CompactBtree, QOp::Close] {
         run.floor(&format!("queued_behind_poisoning_drop:{q:?}"), 2);
     }
